@@ -503,7 +503,10 @@ def gen_cell(rng, ctx, p_missing):
 # malformed / out-of-language stream: raw cell texts
 RAW = ["{", "{{", "{{ a", "{% if %}", "{# c #}", "{{ a | upper }}", "{{ loop }}", "{@ a @} {@ b @}", "x {@ a @}", "{@ a", "a @}",
        "{{ a.items }}", "{{ a + 1 }}", "{{ 'x' ~ a }}", "{{ a is defined }}", "{{ a | default('') }}", "{{ missing | default('d') }}",
-       "{{ dict }}", "{{ range }}", "{% set q = 1 %}{{ q }}", "{{ a if b }}", "{{ a if missing else 'e' }}", "{{}}", "{@@}", "{@ @}", "{{ a[ }}"]
+       "{{ dict }}", "{{ range }}", "{% set q = 1 %}{{ q }}", "{{ a if b }}", "{{ a if missing else 'e' }}", "{{}}", "{@@}", "{@ @}", "{{ a[ }}",
+       # outside the mini-language: other roads on which repr() of the value is taken
+       "{{ [a] | string }}", "{@ [a] | string @}", "{{ '%r' | format(a) }}", "{{ [a] | pprint }}", "{{ dict(k=a) }}", "{{ (b, a) | list }}",
+       "{{ {'k': [a]} | string }}", "{% set q = [a] %}{{ q }}", "{{ [a] | join(',') }}", "{{ '%s' | format(a) }}", "{{ [a] | tojson }}"]
 
 
 # ------------------------------------------------------------------ spy (model-free oracle)
@@ -1152,7 +1155,9 @@ def run(ctx):
             import jinja2
             if isinstance(r[1], jinja2.Undefined):
                 continue
-            fail("missing-name-renders", f"raw cell {t!r} touches 'a' ({tch[0]}) but renders {safe_repr(r[1])} without it",
+            in_container = set(tch) <= {"repr"} or (isinstance(r[1], str) and "Undefined" in r[1])
+            fail("undefined-inside-list-literal" if in_container else "missing-name-renders",
+                 f"raw cell {t!r} touches 'a' ({tch[0]}) but renders {safe_repr(r[1])} without it",
                  dict(fn="spy", text=t, ctx={"b": 1}, mode=0, name="a", produced=safe_repr(r[1])))
 
     # ---------------------------------------------------------------- (a2) row loop: model <-> FlowParser, skipped rows
